@@ -54,6 +54,7 @@ def build_world(ctx):
     t = os.path.join(ctx.repo, "tests")
     sup = os.path.join(t, "_support")
     w.paramiko = paramiko
+    w.repo = ctx.repo
     w.rsa = paramiko.RSAKey.from_private_key_file(os.path.join(sup, "rsa.key"))
     w.rsa2 = paramiko.RSAKey.generate(1024)      # "another key of the same type" (only equality matters)
     w.ed = paramiko.Ed25519Key.from_private_key_file(os.path.join(sup, "ed25519.key"))
@@ -1219,6 +1220,165 @@ def reuse_cases(ctx, w):
 
 
 # --------------------------------------------------------------------------
+# 4b. an IMPOSTOR server: presents the genuine PUBLIC host key of each type, signs with another private key
+
+
+def key_zoo(w):
+    """genuine key and an unrelated private key, per host key type"""
+    import os
+    p = w.paramiko
+    t = os.path.join(w.repo, "tests")
+    zoo = {
+        "rsa": (w.rsa, w.rsa2),
+        "ecdsa-p256": (w.p256, p.ECDSAKey.generate(bits=256)),
+        "ecdsa-p384": (p.ECDSAKey.from_private_key_file(os.path.join(t, "test_ecdsa_384.key")), p.ECDSAKey.generate(bits=384)),
+        "ecdsa-p521": (p.ECDSAKey.from_private_key_file(os.path.join(t, "test_ecdsa_521.key")), p.ECDSAKey.generate(bits=521)),
+        "ed25519": (w.ed, p.Ed25519Key.from_private_key_file(os.path.join(t, "test_ed25519-funky-padding.key"))),
+    }
+    return zoo
+
+
+def make_impostor(genuine, own):
+    """same class and same public blob as `genuine` (asbytes / get_name / fields), signatures made by `own`"""
+    cls = type("Impostor" + type(genuine).__name__, (type(genuine),), {
+        "sign_ssh_data": lambda self, data, algorithm=None: (
+            own.sign_ssh_data(data, algorithm) if algorithm is not None and isinstance(own, RSA_CLASS[0])
+            else own.sign_ssh_data(data))})
+    k = object.__new__(cls)
+    k.__dict__.update(genuine.__dict__)
+    return k
+
+
+RSA_CLASS = []
+
+
+def impostor_cases(ctx, w):
+    p = w.paramiko
+    if not RSA_CLASS:
+        RSA_CLASS.append(p.RSAKey)
+    zoo = key_zoo(w)
+    trows, crows = [], []
+    kinds = sorted(zoo)
+    for kind in kinds:
+        genuine, own = zoo[kind]
+        if own.asbytes() == genuine.asbytes():
+            continue
+        for server in ("impostor", "genuine"):
+            hk = make_impostor(genuine, own) if server == "impostor" else genuine
+            # ---- Transport.connect(hostkey=genuine, password) ----
+            s = Session(w, host_key=hk)
+            try:
+                s.start_server()
+                st, v = with_watchdog(lambda: s.tc.connect(hostkey=genuine, username=USER, password=PASSWORD), 25)
+                kex_ok = bool(s.tc.initial_kex_done)
+                auth_sent = bool(s.server_saw(5) or s.server_saw(50))
+                follow = None
+                if server == "impostor" and st == "ok":
+                    follow = "returned"
+                code = 0 if st == "ok" else (1 if isinstance(v, p.SSHException) or not kex_ok else 100)
+                impl = [code] + ([1, 2, 1 if st == "ok" else 0] if kex_ok else []) + ([4] if kex_ok and auth_sent else [])
+                case = {"side": "transport-connect-impostor", "host_key_type": kind, "server": server}
+                trows.append((case, "((Some (1, 5)), (false, %s, true), (1, 5))" % coq(kex_ok), impl))
+                ctx.count(("impostor-t", kind, server), nontrivial=True, kind="impostor-transport-" + server)
+                if server == "impostor" and (kex_ok or auth_sent or s.srv.seen or st == "ok"):
+                    ctx.fail("credentials-to-impostor-with-known-public-key",
+                             "a server presenting the expected %s public host key but signing with another private "
+                             "key passed the key exchange of Transport.connect(hostkey=...)" % kind, case=case,
+                             expected="SSHException (signature verification), nothing sent",
+                             observed={"st": st, "kex_done": kex_ok, "auth_sent": auth_sent,
+                                       "server_callbacks": [x[0] for x in s.srv.seen]})
+                if server == "genuine" and not (st == "ok" and auth_sent):
+                    ctx.fail("transport-connect-honest-failed", "Transport.connect to the genuine %s server failed"
+                             % kind, case=case, observed=repr(v))
+                if PASSWORD.encode("utf-8") in bytes(s.csock.tap):
+                    ctx.fail("password-in-plaintext", "the password appears in the raw byte stream", case=case)
+            finally:
+                s.close()
+            # ---- SSHClient.connect, genuine key in known_hosts, every policy ----
+            pols = POLICIES if (ctx.thorough or server == "impostor") else ["reject"]
+            if not ctx.thorough and server == "impostor":
+                pols = ["reject", "autoadd", "warning"]
+            for pol in pols:
+                s = Session(w, host_key=hk)
+                calls = []
+
+                def rec(base, accept=None):
+                    class P(base):
+                        def missing_host_key(self, client, hostname, key):
+                            calls.append(hostname)
+                            if accept is False:
+                                raise p.SSHException("no")
+                            if accept is not True:
+                                base.missing_host_key(self, client, hostname, key)
+                    return P()
+
+                policy = {"reject": lambda: rec(p.RejectPolicy), "autoadd": lambda: rec(p.AutoAddPolicy),
+                          "warning": lambda: rec(p.WarningPolicy),
+                          "custom-raise": lambda: rec(p.MissingHostKeyPolicy, False),
+                          "custom-accept": lambda: rec(p.MissingHostKeyPolicy, True)}[pol]()
+                c = p.SSHClient()
+                c.set_missing_host_key_policy(policy)
+                c.get_host_keys().add("host17", genuine.get_name(), genuine)
+                try:
+                    s.start_server()
+
+                    def factory(sock, **kw):
+                        t = w.HookClient(sock, packetizer_class=s._client_packetizer(), **kw)
+                        t.c17_obs = s.obs
+                        s.tc = t
+                        return t
+
+                    def go():
+                        with warnings.catch_warnings():
+                            warnings.simplefilter("ignore")
+                            c.connect("host17", port=22, username=USER, password=PASSWORD, sock=s.csock,
+                                      allow_agent=False, look_for_keys=False, transport_factory=factory, timeout=15)
+
+                    st, v = with_watchdog(go, 25)
+                    kex_ok = bool(s.tc.initial_kex_done)
+                    auth_sent = bool(s.server_saw(5) or s.server_saw(50))
+                    code = 0 if st == "ok" else (117 if isinstance(v, p.BadHostKeyException) else
+                                                 1 if isinstance(v, p.SSHException) or not kex_ok else 100)
+                    impl = [code]
+                    if kex_ok:
+                        impl += [1]
+                        if calls:
+                            impl += [3, 1 if st == "ok" else 0]
+                        elif code == 117:
+                            impl += [2, 0]
+                        elif st == "ok" or auth_sent:
+                            impl += [2, 1]
+                        if auth_sent:
+                            impl += [4]
+                    polm = {"reject": "PReject", "autoadd": "PAutoAdd", "warning": "PWarning",
+                            "custom-raise": "(PCustom false)", "custom-accept": "(PCustom true)"}[pol]
+                    case = {"side": "sshclient-impostor", "host_key_type": kind, "server": server, "policy": pol}
+                    crows.append((case, "([], ([], [([(Nm false 1)], (1, 5))]), (1, 2, 22), %s, (false, false, %s), (1, 5))"
+                                  % (polm, coq(kex_ok)), impl))
+                    ctx.count(("impostor-c", kind, server, pol), nontrivial=True, kind="impostor-sshclient-" + server)
+                    if server == "impostor" and (kex_ok or auth_sent or s.srv.seen or st == "ok"):
+                        ctx.fail("credentials-to-impostor-with-known-public-key",
+                                 "a server presenting the known %s public host key but signing with another private "
+                                 "key passed the key exchange; SSHClient (%s policy, genuine key in known_hosts) went "
+                                 "on" % (kind, pol), case=case,
+                                 expected="SSHException (signature verification), nothing sent",
+                                 observed={"st": st, "kex_done": kex_ok, "auth_sent": auth_sent,
+                                           "server_callbacks": [x[0] for x in s.srv.seen]})
+                    if server == "genuine" and (not auth_sent or calls):
+                        ctx.fail("sshclient-honest-failed", "SSHClient.connect to the genuine %s server failed" % kind,
+                                 case=case, observed=repr(v))
+                    if PASSWORD.encode("utf-8") in bytes(s.csock.tap):
+                        ctx.fail("password-in-plaintext", "the password appears in the raw byte stream", case=case)
+                finally:
+                    try:
+                        c.close()
+                    except Exception:
+                        pass
+                    s.close()
+    return trows, crows
+
+
+# --------------------------------------------------------------------------
 # 5. successive connections of ONE SSHClient to an UNKNOWN host: the policy decides every time
 
 
@@ -1347,7 +1507,7 @@ def run(ctx):
                 "(quick: seeded 60 % sample) or after the handshake, or signing other data; Transport.connect over "
                 "hostkey argument {none, same, other same type, other types} x bad signature x credential; "
                 "SSHClient.connect(sock=), through password= and through auth_strategy=, host names in lower and mixed case, over 10 known_hosts contents x {user, system} x 5 policies x {22, 2222} "
-                "(quick: all Reject/AutoAdd user cases, every stored-key mismatch x accepting policy, + 12 sampled + 24 with a server advertising gss-X / unknown kex names; thorough: the whole grid, every mismatch / unknown-host case again with a gss-advertising server + 40 sampled others, 40 with an unknown name, and the whole user-store grid through auth_strategy= and with a mixed-case host name).  policies refusing by raising SSHException / OSError subclasses / ValueError / KeyError / EOFError / a BaseException; the SAME SSHClient used for a second connect after a first connect / lookup / membership test and a mutation of its host key store (clear, del, pop, clear+load of another file, del+add, __setitem__, add of another type).  successive connects of one SSHClient to an unknown host under a pinning / warning policy with the second server presenting the same / another / a near-miss key; servers presenting a near-miss key (RSA modulus congruent to the stored one modulo the hash modulus; same modulus, other exponent); known_hosts FILES loaded through load_host_keys / load_system_host_keys (plain, tab, multi-name, hashed, comments, @revoked / @cert-authority / unknown marker lines) judged by an independent reference parser.  Every case is a distinct "
+                "(quick: all Reject/AutoAdd user cases, every stored-key mismatch x accepting policy, + 12 sampled + 24 with a server advertising gss-X / unknown kex names; thorough: the whole grid, every mismatch / unknown-host case again with a gss-advertising server + 40 sampled others, 40 with an unknown name, and the whole user-store grid through auth_strategy= and with a mixed-case host name).  policies refusing by raising SSHException / OSError subclasses / ValueError / KeyError / EOFError / a BaseException; the SAME SSHClient used for a second connect after a first connect / lookup / membership test and a mutation of its host key store (clear, del, pop, clear+load of another file, del+add, __setitem__, add of another type).  an impostor server per host key type (RSA, ECDSA p256 / p384 / p521, Ed25519) that presents the genuine public key and signs with another private key, against Transport.connect(hostkey=genuine) and SSHClient.connect (genuine key in known_hosts, every policy), with a genuine-server control per type; successive connects of one SSHClient to an unknown host under a pinning / warning policy with the second server presenting the same / another / a near-miss key; servers presenting a near-miss key (RSA modulus congruent to the stored one modulo the hash modulus; same modulus, other exponent); known_hosts FILES loaded through load_host_keys / load_system_host_keys (plain, tab, multi-name, hashed, comments, @revoked / @cert-authority / unknown marker lines) judged by an independent reference parser.  Every case is a distinct "
                 "script and reaches the guard / gating / comparison code, hence non-trivial.")
     ctx.trusted += ["model coq/Model/C17.v is hand-written; tied to transport.py / client.py / auth_handler.py by "
                     "gen/c17.py (AST ordering checks, fail-closed) and this scripted differential run",
@@ -1409,18 +1569,29 @@ def run(ctx):
     crows = cconnect_cases(ctx, w)
     crows += reuse_cases(ctx, w)
     crows += reconnect_cases(ctx, w)
+    it, ic = impostor_cases(ctx, w)
+    trows += it
+    crows += ic
     nf = file_cases(ctx, w)
     ctx.log("known_hosts files through the real parser: %d connects" % nf)
     if crows:
         ctx.sample({"sshclient": crows[0][0], "impl": crows[0][2]})
 
-    # ---- model comparisons, after every oracle has run ----
-    model("run_trace", "(list event)", [(e, o) for _, e, o in rows],
-          "client event trace differs from model run", [({"script": r[0], "events": r[1]}, None, r[2]) for r in rows])
-    model("run_tconnect", "(option key * (bool * bool * bool) * key)", [(t, i) for _, t, i in trows],
-          "Transport.connect differs from model transport_connect", trows)
-    model("run_cconnect", "(hmap * (state * state) * (Z * Z * Z) * policy * (bool * bool * bool) * key)",
-          [(t, i) for _, t, i in crows], "SSHClient.connect differs from model client_connect", crows)
+    # ---- model comparisons, after every oracle has run (independent coqc runs, evaluated concurrently) ----
+    import threading
+    jobs = [
+        ("run_trace", "(list event)", [(e, o) for _, e, o in rows],
+         "client event trace differs from model run", [({"script": r[0], "events": r[1]}, None, r[2]) for r in rows]),
+        ("run_tconnect", "(option key * (bool * bool * bool) * key)", [(t, i) for _, t, i in trows],
+         "Transport.connect differs from model transport_connect", trows),
+        ("run_cconnect", "(hmap * (state * state) * (Z * Z * Z) * policy * (bool * bool * bool) * key)",
+         [(t, i) for _, t, i in crows], "SSHClient.connect differs from model client_connect", crows),
+    ]
+    threads = [threading.Thread(target=lambda j=j: model(*j)) for j in jobs]
+    for th in threads:
+        th.start()
+    for th in threads:
+        th.join()
     ctx.exhaustive = bool(ctx.thorough)
 
 
